@@ -364,6 +364,8 @@ def tampered_share_failures():
 
 
 def extra_checks(rep, tier):
+    from contracts import grid_upload
+    grid_upload.grid_check(rep, tier, "C45")
     bad, n = tampered_share_failures()
     name = "Verifier:a-share-rewritten-consistently-with-its-own-block-hash-tree-is-refused-and-genuine-shares-are-accepted"
     rep.obligations += 1
